@@ -384,6 +384,17 @@ func checkMain(args []string) int {
 	for _, v := range vacuous {
 		fmt.Printf("VACUOUS label never reached: %s\n", v)
 	}
+	hv := map[string]bool{}
+	for _, r := range results {
+		for _, i := range r.Intrinsics {
+			if strings.HasPrefix(i, "HAVOC:") && !strings.Contains(i, "math/big") {
+				hv[i] = true
+			}
+		}
+	}
+	if len(hv) > 0 {
+		fmt.Printf("NOTE unmodelled callees (paths through them are imprecise: counterexamples there are not reported): %v\n", sortedKeys(hv))
+	}
 	writeEvidence(prop, tier, seed, &spec, results, viols, validated, nviol, unconfirmed, undecided, unwind, vacuous, engineErrors, time.Since(t0).Seconds())
 	fmt.Printf("check %s tier=%s done in %.1fs: violations=%d known=%d unconfirmed=%d undecided=%d unwind=%d vacuous=%d errors=%d\n",
 		prop, tier, time.Since(t0).Seconds(), nviol, len(knownPrinted), unconfirmed, undecided, unwind, len(vacuous), engineErrors)
